@@ -71,7 +71,8 @@ func runC12(p *core.Prog, r *core.Report, tier string) {
 
 	// (a),(b) pairing + re-entrancy, package functions (thorough: whole repository, out-of-scope hits observed only)
 	lockFns, lockOps := 0, 0
-	for _, f := range fns {
+	// … and the shared helpers the relay calls while answering (util: the builder client cache and its package-level mutex)
+	for _, f := range append(append([]*ssa.Function{}, fns...), p.FuncsIn("util")...) {
 		n := 0
 		core.EachInstr(f, func(in ssa.Instruction) {
 			if ci, ok := in.(ssa.CallInstruction); ok {
